@@ -554,9 +554,14 @@ func firstLines(s string, n int) string {
 }
 
 // sameFailure reports whether r shows the violation (prop, rule).
+// activeFindings: while a violation that is NOT a known finding is being replayed and
+// minimised, a candidate only counts if it still is not one (shrinking must not morph a new
+// violation into a recorded one of the same rule).
+var activeFindings []*Finding
+
 func hasViolation(prop, rule string, r *RunResult, bin string, idx int) bool {
 	for _, v := range violationsFor(prop, r, bin, idx) {
-		if v.Rule == rule {
+		if v.Rule == rule && matchFinding(activeFindings, v) == nil {
 			return true
 		}
 	}
